@@ -1,0 +1,41 @@
+// Copyright 2026 Dolthub, Inc.
+//
+// Licensed under the Apache License, Version 2.0 (the "License");
+// you may not use this file except in compliance with the License.
+// You may obtain a copy of the License at
+//
+//     http://www.apache.org/licenses/LICENSE-2.0
+//
+// Unless required by applicable law or agreed to in writing, software
+// distributed under the License is distributed on an "AS IS" BASIS,
+// WITHOUT WARRANTIES OR CONDITIONS OF ANY KIND, either express or implied.
+// See the License for the specific language governing permissions and
+// limitations under the License.
+
+//go:build verif
+
+package nbs
+
+// Accessor used by the /verif correspondence harness (property C06). Add-only;
+// compiled only with -tags verif.
+
+import "context"
+
+// VerifArchiveIndexBytes returns the raw index block of the archive (span end offsets,
+// prefixes, chunk references, suffixes), the number of byte spans, and the decoded span
+// end offsets and chunk references (dictionary id, data id) per index position.
+func (a *VerifArchive) VerifArchiveIndexBytes(ctx context.Context) (raw []byte, spanEnds []uint64, refs [][2]uint32, err error) {
+	f := a.acs.aRdr.footer
+	raw, err = a.acs.aRdr.readByteSpan(ctx, f.totalIndexSpan(), NewStats())
+	if err != nil {
+		return nil, nil, nil, err
+	}
+	for i := uint32(1); i <= f.byteSpanCount; i++ {
+		spanEnds = append(spanEnds, a.acs.aRdr.indexReader.getSpanIndex(i))
+	}
+	for i := uint32(0); i < f.chunkCount; i++ {
+		d, c := a.acs.aRdr.indexReader.getChunkRef(i)
+		refs = append(refs, [2]uint32{d, c})
+	}
+	return raw, spanEnds, refs, nil
+}
